@@ -212,21 +212,26 @@ Lemma ex_refs_in : refs_in ex_F.
 Proof. apply refs_in_check. vm_compute. reflexivity. Qed.
 Lemma ex_all_readable : all_readable ex_h ex_F.
 Proof. apply all_readable_check. vm_compute. reflexivity. Qed.
-Lemma ex_unroll :
-  unroll ex_F (Z.to_nat c_CJSON_CIRCULAR_LIMIT) (T 6 d6 [T 7 d7 []; T 10 d10 []; T 11 d11 []; T 15 d15 []])%positive = ex_t.
+Definition ex_t0 : tree := (T 6 d6 [T 7 d7 []; T 10 d10 []; T 11 d11 []; T 15 d15 []])%positive.
+Lemma ex_find : find_tree 6%positive ex_F = Some ex_t0.
 Proof. vm_compute. reflexivity. Qed.
+Lemma ex_unroll : unroll ex_F (Z.to_nat c_CJSON_CIRCULAR_LIMIT) ex_t0 = ex_t.
+Proof. vm_compute. reflexivity. Qed.
+Lemma ex_unroll_complete : complete (unroll ex_F (Z.to_nat c_CJSON_CIRCULAR_LIMIT) ex_t0).
+Proof. rewrite ex_unroll. apply ex_complete. Qed.
 
 Theorem ex_success_ref :
   exists tc h',
     cJSON_Duplicate orc0 (Some 6%positive) true ex_h = Ret (Some (tid tc), h') /\
     WF h' (ex_F ++ [tc]) /\ copy_of h' ex_t tc.
 Proof.
-  destruct (dup_copy_ref orc0 ex_h ex_F 6%positive _ ex_WF ex_closed ex_refs_in ex_all_readable eq_refl)
+  destruct (dup_copy_ref orc0 ex_h ex_F 6%positive ex_t0 ex_WF ex_closed ex_refs_in ex_all_readable ex_find)
     as (r & h' & Hrun & H).
-  rewrite ex_unroll in H. destruct H as [H|H].
-  - destruct H as (_ & _ & _ & _ & _ & _ & _ & _ & _ & _ & Hof). destruct (Hof ex_complete) as (j & _ & Hj).
-    discriminate.
-  - destruct H as (tc & -> & W' & _ & Hcp & _). by exists tc, h'.
+  destruct H as [H|H].
+  - destruct H as (_ & _ & _ & _ & _ & _ & _ & _ & _ & _ & Hof).
+    destruct (Hof ex_unroll_complete) as (j & _ & Hj). discriminate Hj.
+  - destruct H as (tc & -> & W' & _ & Hcp & _). rewrite ex_unroll in Hcp.
+    exists tc, h'. split; [exact Hrun|]. split; [exact W'|exact Hcp].
 Qed.
 
 (** * cyclic structures *)
